@@ -368,7 +368,9 @@ func genString() *rapid.Generator[string] {
 		return string(rapid.SliceOfN(rapid.SampledFrom(symbols), 0, 30).Draw(t, "syms"))
 	})
 	hostile := rapid.Custom(func(t *rapid.T) string {
-		parts := rapid.SliceOfN(rapid.SampledFrom([]string{"'", "''", "'\"'\"'", "\"", "\\", "\\'", "$(id)", "`id`", "${x}", " ", "\t", "\n", ";", "&&", "|", ">", "<", "*", "?", "[a]", "~", "~/", "!", "#", "a", "é", "\xff", "\x01", "\x7f", "--", "=", "(", ")", "{", "}", "\r"}), 0, 12).Draw(t, "parts")
+		parts := rapid.SliceOfN(rapid.SampledFrom([]string{"'", "''", "'\"'\"'", "\"", "\\", "\\'", "$(id)", "`id`", "${x}", " ", "\t", "\n", ";", "&&", "|", ">", "<", "*", "?", "[a]", "~", "~/", "!", "#", "a", "é", "\xff", "\x01", "\x7f", "--", "=", "(", ")", "{", "}", "\r",
+			// characters an implementation may think nobody uses, and use itself as a marker between two passes over the string
+			"\uffff", "\ufffe", "\ufffd", "\ufdd0", "\ue000", "\U0010ffff", "\x1a", "\x1b", "\x1e", "\x02", "\xef\xbf", "\u2028", "\u00a0", "\u200b"}), 0, 12).Draw(t, "parts")
 		return strings.Join(parts, "")
 	})
 	long := rapid.Custom(func(t *rapid.T) string {
